@@ -182,7 +182,7 @@ def step(sh: Shadow, i: int, op: dict[str, Any], r: dict[str, Any]) -> None:
         return
     if k == "enter":
         if x["state"] != "inactive":
-            if first != f"runtimeError {x['state']}":
+            if first != "runtimeError":
                 sh.flag("C13", f"step {i}: entering context {c} in state {x['state']} gave {first!r}")
             return
         if first != "ok":
@@ -209,7 +209,7 @@ def step(sh: Shadow, i: int, op: dict[str, Any], r: dict[str, Any]) -> None:
         return
     if k == "addtd":
         if not usable:
-            want = f"runtimeError {x['state']}"
+            want = "runtimeError"
         elif not op["callable"]:
             want = "typeError"
         else:
@@ -245,7 +245,7 @@ def monitor_add(sh: Shadow, i: int, op: dict[str, Any], r: dict[str, Any], x: di
     usable = x["state"] in ("open", "closing")
     types = add_types(op)
     if not usable:
-        want = [f"runtimeError {x['state']}"]
+        want = ["runtimeError"]
     elif op["types"] and op["badType"]:
         want = ["typeError"]
     elif op["val"] is None:
@@ -279,7 +279,7 @@ def monitor_add(sh: Shadow, i: int, op: dict[str, Any], r: dict[str, Any], x: di
 def monitor_addf(sh: Shadow, i: int, op: dict[str, Any], r: dict[str, Any], x: dict[str, Any], c: int) -> None:
     first = r["res"][0]
     if x["state"] != "open":
-        want = f"runtimeError {x['state']}"
+        want = "runtimeError"
     elif not valid_name(op["name"]):
         want = "valueError"
     elif not op["types"]:
@@ -323,7 +323,7 @@ def monitor_getnw(sh: Shadow, i: int, op: dict[str, Any], r: dict[str, Any], x: 
     usable = x["state"] in ("open", "closing")
     evs: list[str] = []
     if not usable:
-        want = f"runtimeError {x['state']}"
+        want = "runtimeError"
     elif visible(x, key) is not None:
         want = f"val {visible(x, key)}"
     elif key in x["facs"]:
@@ -351,7 +351,7 @@ def monitor_get(sh: Shadow, i: int, op: dict[str, Any], r: dict[str, Any], x: di
     for s in late:
         observe_late(sh, i, c, s)
     if not usable:
-        if first != f"runtimeError {x['state']}":
+        if first != "runtimeError":
             sh.flag("C13", f"step {i}: get_resource on context {c} ({x['state']}) gave {first!r}")
         return
     if visible(x, key) is not None:
@@ -551,7 +551,7 @@ def replay_body(sh: Shadow, i: int, x: dict[str, Any], c: int, b: dict[str, Any]
         evs.append(f"ev {c} [{','.join(map(str, b['types']))}] {b['name']} - r")
         return "ok"
     if b["op"] == "addf":
-        return "runtimeError closing"
+        return "runtimeError"
     if b["op"] == "getnw":
         key = (b["ty"], b["name"])
         v = visible(x, key)
@@ -592,7 +592,7 @@ def monitor_inject(sh: Shadow, i: int, op: dict[str, Any], r: dict[str, Any]) ->
     for d in op["deps"]:
         key = (d["ty"], d["name"])
         if x["state"] not in ("open", "closing"):
-            failed = f"runtimeError {x['state']}"
+            failed = "runtimeError"
             break
         v = visible(x, key)
         if v is None and key in x["facs"]:
